@@ -51,6 +51,7 @@ type Tx struct {
 	// rule scenarios: the proof is a Fabric artifact (endorsed broker response) "signer[!idx|!cc|!func|!sig]", e.g. "c0", "c1", "c0!idx"
 	Art      string `json:"art,omitempty"`
 	Promoted bool   `json:"promoted,omitempty"` // surface calls: method is promoted / not an entry point
+	BadSig   bool   `json:"badsig,omitempty"`   // transfer: the signature does not verify
 	Aim      string `json:"aim,omitempty"`      // surface calls: "self" (first argument names the caller) | "ownnode" (first argument names the node the calling audit admin is / was bound to) | ""
 }
 
@@ -455,7 +456,13 @@ func (r *runner) build(n *core.Node, t Tx) (pb.Transaction, map[string]interface
 			"amtKind": "none", "amtNum": 0, "amt": ""}
 	case "transfer":
 		tx := n.TransferTx(from, n.Account(t.Dst).Addr, "7")
-		return tx, map[string]interface{}{"k": "transfer", "from": from.Addr.String(), "to": n.Account(t.Dst).Addr.String(), "cls": "transfer", "badsig": false, "m": "",
+		if bx, ok := tx.(*pb.BxhTransaction); ok && t.BadSig {
+			sig := append([]byte{}, bx.Signature...)
+			sig[len(sig)/2] ^= 0x55
+			bx.Signature = sig
+			bx.TransactionHash = bx.Hash()
+		}
+		return tx, map[string]interface{}{"k": "transfer", "from": from.Addr.String(), "to": n.Account(t.Dst).Addr.String(), "cls": "transfer", "badsig": t.BadSig, "m": "",
 			"amtKind": "num", "amtNum": 7, "amt": "7"}
 	default: // direct invocation of a contract method with string args
 		var args []*pb.Arg
@@ -1304,6 +1311,16 @@ func genPlan(rng *rand.Rand, name string, mode string) *Plan {
 		}
 		switch {
 		case c < 13:
+			if rng.Intn(12) == 0 {
+				// a long block of plain transfers, every third with a signature that does not verify: the signature checks of one
+				// block run side by side, which transactions they refuse must not depend on how they are scheduled
+				var txs []Tx
+				for j := 24 + rng.Intn(24); j > 0; j-- {
+					txs = append(txs, Tx{K: "transfer", From: sender(rng), Dst: "u2", BadSig: j%3 == 0})
+				}
+				p.Steps = append(p.Steps, Step{Step: "block", Txs: txs})
+				continue
+			}
 			k := 1 + rng.Intn(3)
 			if rng.Intn(3) == 0 {
 				k = 1
@@ -1351,11 +1368,17 @@ func genPlan(rng *rand.Rand, name string, mode string) *Plan {
 					m := []string{"transfer", "create", "store", "store", "lowgas"}[rng.Intn(5)]
 					txs = append(txs, Tx{K: "eth", From: "e1", M: m})
 				} else if rng.Intn(2) == 0 {
-					txs = append(txs, Tx{K: "transfer", From: from, Dst: "u2"})
+					// (now and then with a signature that does not verify, next to the valid transactions of the block)
+					txs = append(txs, Tx{K: "transfer", From: from, Dst: "u2", BadSig: rng.Intn(3) == 0})
 				} else {
 					dm := [][]string{{"interchain", "DeleteInterchain", "svc:" + s}, {"interchain", "Register", s}, {"interchain", "GetInterchain", "svc:" + s},
 						{"txmgr", "Begin", "x-y-1", "u64:3", "bool:false"}, {"txmgr", "Report", "svc:" + s + "-x-1", "i32:1"}, {"interchain", "GetIBTPByID", "a-b-1", "bool:true"},
-						{"interchain", "HandleIBTPData", "bytes:xx"}, {"service", "RecordInvokeService", "svc:" + s, "svc:" + d, "bool:true"}}[rng.Intn(8)]
+						{"interchain", "HandleIBTPData", "bytes:xx"}, {"service", "RecordInvokeService", "svc:" + s, "svc:" + d, "bool:true"},
+						// a rule address that is hexadecimal but no address (the chain's own admin gets as far as the address check)
+						{"rule", "RegisterRule", strings.Split(s, ":")[0], []string{"0xabcd", "0x00", "0x"}[rng.Intn(3)], "url"}}[rng.Intn(9)]
+					if dm[1] == "RegisterRule" {
+						from = "admin-" + strings.Split(s, ":")[0]
+					}
 					txs = append(txs, Tx{K: "invoke", From: from, C: dm[0], M: dm[1], Args: dm[2:]})
 				}
 			}
@@ -2107,7 +2130,20 @@ func genSurface(rng *rand.Rand, name string, surf []lockstep.MethodInfo, frac in
 			first = append(first, c)
 		}
 	}
-	sort.SliceStable(last, func(i, j int) bool { return last[i].M != "ActivateRole" && last[j].M == "ActivateRole" })
+	// (own activation first: it is refused once the own logout is under way; own logout at the very end)
+	var lastOut []Tx
+	{
+		var keep []Tx
+		for _, c := range last {
+			if c.M == "LogoutRole" {
+				lastOut = append(lastOut, c)
+			} else {
+				keep = append(keep, c)
+			}
+		}
+		last = keep
+	}
+	sort.SliceStable(last, func(i, j int) bool { return last[i].M == "ActivateRole" && last[j].M != "ActivateRole" })
 	// ... and once it has asked for its own activation (status activating: still not one of the available admins) a frozen
 	// caller tries a third of its reserved operations again
 	var again []Tx
@@ -2116,7 +2152,7 @@ func genSurface(rng *rand.Rand, name string, surf []lockstep.MethodInfo, frac in
 			again = append(again, c)
 		}
 	}
-	calls = append(append(first, last...), again...)
+	calls = append(append(append(first, last...), again...), lastOut...)
 	for i := 0; i < len(calls); i += 3 {
 		j := i + 3
 		if j > len(calls) {
